@@ -70,7 +70,7 @@ std::vector<CheckDef>& check_table()
 		  "then sync plain / -h / -N / -B partial / killed after the parity update / single-threaded, repeated. Judged: the reference hash of every block recorded as synced equals the recorded hash and the independent parity oracle holds after every command; a decoy that the scan took for a copy is reported and fails the sync (complete syncs), "
 		  "--force-nocopy inherits nothing, with --pre-hash the parity is not modified. Second half: a recorded file is lost while decoys sit on other disks and in an import directory (-i and --test-import-content; right name/size/stamp with wrong bytes, all-but-last-block right, honest copy under another name), parity possibly lost too, "
 		  "then fix/check: the file gets exactly its recorded bytes or is reported unrecoverable (the C05 oracle, reported under C19). Non-trivial = a sync in which a decoy was taken for a copy, or a fix that judged a file" },
-		{ "C16", "exploration", { { "golden", 600, 12000 } },
+		{ "C16", "exploration", { { "golden", 3000, 60000 } },
 		  "corpus /verif/golden: arrays written by the reference commit (built into this simulator by tools/mkgolden.sh; histories with holes, moved blocks, links, scrub info) for both hash kinds x levels 1-6 + z mode x {plain, split with limit, hash sizes 8/4/2, 4 KiB blocks} plus two hash vector arrays holding one file of every length 0..1100 with 2 KiB blocks. "
 		  "The current code runs on them under seeded schedules, short reads and small stream buffers: check / check -a / scrub -p full must be clean (exit 0, no error line); up to np devices (or scattered blocks) are lost and fix must restore every byte (C01 oracle, reported as C16); after the current code saves the array again (scrub, sync after changes) "
 		  "every untouched file keeps the hash, size, stamp and position recorded by the reference version and the header keeps hash kind/seed/size; always-on: independent decoder + pinned reference hashes + GF(2^8) parity oracle on every command. Non-trivial = verification or comparison of a reference array completed; distinct = (array, command) pairs" },
